@@ -97,8 +97,8 @@ func init() {
 		"Structural necessary conditions of C13, decided for every function, path and call site of the package: MUTSITE (mutating Storage calls exist only inside the three writer plans; the closure of the SELECT builder with all methods of every plan type it can build has none; planning has none; parsing/checking reach no storage call at all), PARSEFIRST (no storage-reaching call before the parse/validate error test succeeded), ERRPROP (every error produced by a storage-reaching call is examined on every path and returned - itself or wrapped - on every failure path, with no further storage-reaching call and no loop continuation). REJECTFIRST (a statement rejected while its plan is built has not reached storage).",
 		"Nothing structural is left out; 'returns that error' is decided as 'the returned error is data-derived from it'. The caller's Storage implementation is outside the analysis.")
 
-	prop("C14", []string{"CHILDVISIT", "FUNCREG", "WHEREBOOL", "KWFLAGS", "MUTSITE", "PARSEFIRST", "LISTCOVER", "NOTWRAP", "CACHECOPY", "ADMIT", "ERRALL", "REJECTFIRST"},
-		"Structural necessary conditions of C14: CHILDVISIT (every Expression node's Check visits every child before any success return and returns the child's error, so a fault is seen at every syntactic position; every statement's Validate reaches Check on each of its expressions and the parser returns the validation error), NOTWRAP (the parser builds a `!` node for every `!` it consumes), FUNCREG (the function-call Check consults both registries and the arity), WHEREBOOL (SELECT and DELETE both type-check the WHERE expression and require a Boolean result), KWFLAGS (PUT forbids `value`, REMOVE forbids `key`/`value`), LISTCOVER(in) (what checkWithIn admits on the right of IN is handled by both executors), MUTSITE(d)+PARSEFIRST (rejection happens before any storage access). REJECTFIRST (while the plan is built, every rejection is produced before the first storage operation, in every function of that phase including each plan's Init).",
+	prop("C14", []string{"CHILDVISIT", "FUNCREG", "WHEREBOOL", "KWFLAGS", "MUTSITE", "PARSEFIRST", "LISTCOVER", "NOTWRAP", "CACHECOPY", "ADMIT", "ERRALL", "REJECTFIRST", "CHECKROUTE", "ADMITCLASS"},
+		"Structural necessary conditions of C14: CHILDVISIT (every Expression node's Check visits every child before any success return and returns the child's error, so a fault is seen at every syntactic position; every statement's Validate reaches Check on each of its expressions and the parser returns the validation error), NOTWRAP (the parser builds a `!` node for every `!` it consumes), FUNCREG (the function-call Check consults both registries and the arity), WHEREBOOL (SELECT and DELETE both type-check the WHERE expression and require a Boolean result), KWFLAGS (PUT forbids `value`, REMOVE forbids `key`/`value`), LISTCOVER(in) (what checkWithIn admits on the right of IN is handled by both executors), MUTSITE(d)+PARSEFIRST (rejection happens before any storage access). REJECTFIRST (while the plan is built, every rejection is produced before the first storage operation, in every function of that phase including each plan's Init). CHECKROUTE (operators sharing an evaluator share a typing rule), ADMITCLASS (an operator is admitted only for the static operand types its evaluator has a case for).",
 		"Completeness and soundness of the operand typing rules themselves are value/type-level facts not decided here.")
 	propTable["C14"].KeyFilter["MUTSITE"] = keyHas("MUTSITE|d|")
 	propTable["C14"].KeyFilter["LISTCOVER"] = keyHas("|in|")
